@@ -240,6 +240,25 @@ pub fn generate(tier: Tier, rng: &mut Rng) -> Vec<Case> {
             }
         }
     }
+    // calls inside macro bodies: arguments and receiver are evaluated in the scope of the body (the
+    // iteration variable, shadowing a root variable of the same name), both styles; the model decides
+    {
+        let mut spec = CtxSpec::default_ctx();
+        spec.vars.push(("n".into(), cel_interpreter::Value::Int(100)));
+        spec.fns.push(("twice".into(), FnSpec::Host(vec!["pos-value".into()], Body::First)));
+        spec.fns.push(("pair".into(), FnSpec::Host(vec!["this-value".into(), "pos-value".into()], Body::Echo)));
+        spec.fns.push(("all3".into(), FnSpec::Host(vec!["args".into()], Body::Echo)));
+        for src in [
+            "[1, 2, 3].map(x, string(x))", "[1, 2, 3].map(x, x.string())", "[1, 2, 3].map(n, twice(n))", "[1, 2, 3].map(n, n.pair(n))", "[1, 2, 3].map(n, pair(n, n + 1))",
+            "[1, 2].map(x, [10, 20].map(y, pair(x, y)))", "[1, 2].filter(n, size([n]) == 1)", "[[1], [1, 2]].map(l, l.size() + size(l))", "[1, 2].all(x, all3(x, n, x + n) != null)",
+            "[1, 2].exists(x, max(x, n) == n)", "[3, 4].map(n, [n].contains(n))", "[1, 2].map(x, twice(twice(x)))", "[1].map(x, x.pair(x.pair(n)))",
+        ] {
+            if let Some(mut c) = eval_case_from_src(&spec, src) {
+                c.tags = vec!["call-in-macro-body"];
+                out.push(c);
+            }
+        }
+    }
     // identifier extractor with real identifiers
     let mut spec = CtxSpec::default_ctx();
     spec.fns.push(("hid".into(), FnSpec::Host(vec!["ident".into(), "pos-value".into()], Body::Echo)));
